@@ -474,7 +474,7 @@ void BW_MidiSequencer::setSongNum(int track)
                 m_interface->rt_controllerChange(m_interface->rtUserData, i, 123, 0);
         }
 
-        m_atEnd            = false;
+        // m_atEnd is cleared by buildTimeLine() once the song is ready
         m_loop.fullReset();
         m_loop.caughtStart = true;
 
@@ -2423,7 +2423,7 @@ bool BW_MidiSequencer::loadMIDI(FileAndMemReader &fr)
         return false;
     }
 
-    m_atEnd            = false;
+    // m_atEnd is cleared by buildTimeLine() once the song is ready: a refused file leaves nothing to play
     m_loop.fullReset();
     m_loop.caughtStart = true;
 
